@@ -96,6 +96,8 @@ func (s *state) walk(node ast.Node) {
 		s.walk(node.Body)
 	case *ast.HeaderParamNode:
 		// TODO: Validate param types.
+	case *ast.SoyDocNode:
+		// a /** ... */ comment inside a template body prints nothing (as in soyjs).
 	case *ast.ListNode:
 		// a block is a variable scope: {let}s made inside are not visible after it.
 		s.context.push()
